@@ -75,9 +75,6 @@ theorem readS_flatten (e : SExp) (r : List Tok) : readS (flattenS e ++ r) = some
 
 /-! ### lexE ∘ layoutE -/
 
-/-- characters that may occur in an unquoted atom -/
-def plainChar (c : Char) : Bool := !(c == '"' || c == '(' || c == ')' || isWs c)
-
 /-- the atoms the theorem speaks about: a non-empty unquoted word, or a quoted string whose body has
     no double quote and no line break (C03's hypothesis on names and string values) -/
 def cleanAtom (s : Str) : Prop :=
@@ -210,5 +207,47 @@ theorem lex_layout (e : SExp) (he : e.clean) : lexE (layoutE e) = flattenS e := 
 theorem read_lex_layout (e : SExp) (he : e.clean) : readS (lexE (layoutE e)) = some (e, []) := by
   rw [lex_layout e he]
   simpa using readS_flatten e []
+
+/-! ### the decidable form of the hypothesis -/
+
+theorem cleanAtomB_sound (s : Str) (h : cleanAtomB s = true) : cleanAtom s := by
+  unfold cleanAtomB at h
+  rcases Bool.or_eq_true_iff.mp h with h1 | h2
+  · left
+    simp only [Bool.and_eq_true, Bool.not_eq_true', List.all_eq_true] at h1
+    refine ⟨?_, h1.2⟩
+    intro e; subst e; simp at h1
+  · right
+    split at h2
+    · rename_i r
+      split at h2
+      · rename_i m hm
+        refine ⟨m.reverse, ?_, ?_⟩
+        · have : r = (('"' :: m).reverse) := by rw [← hm]; simp
+          rw [this]; simp
+        · intro c hc
+          rw [List.all_eq_true] at h2
+          have := h2 c (List.mem_reverse.mp hc)
+          simp only [Bool.and_eq_true, bne_iff_ne, ne_eq] at this
+          exact ⟨this.1.1, this.1.2, this.2⟩
+      · cases h2
+    · cases h2
+
+mutual
+theorem cleanB_sound (e : SExp) (h : e.cleanB = true) : e.clean := by
+  cases e with
+  | atom s => exact cleanAtomB_sound s h
+  | list xs => exact cleanLB_sound xs h
+theorem cleanLB_sound (xs : List SExp) (h : cleanLB xs = true) : cleanL xs := by
+  cases xs with
+  | nil => trivial
+  | cons x r =>
+    simp only [cleanLB, Bool.and_eq_true] at h
+    exact ⟨cleanB_sound x h.1, cleanLB_sound r h.2⟩
+end
+
+/-- `lex_layout` with the decidable hypothesis -/
+theorem lex_layout_B (e : SExp) (h : e.cleanB = true) : lexE (layoutE e) = flattenS e :=
+  lex_layout e (cleanB_sound e h)
 
 end Spydr.Edif
